@@ -12,7 +12,12 @@ import (
 )
 
 func callerInPQL(caller *frame) bool {
-	return caller != nil && caller.fn != nil && caller.fn.Pkg != nil && strings.HasSuffix(caller.fn.Pkg.Pkg.Path(), "/pql")
+	if caller == nil || caller.fn == nil || caller.fn.Pkg == nil {
+		return false
+	}
+	// precise formatting where the formatted text is data: the PQL package
+	// (forwarded calls) and the time-view names
+	return strings.HasSuffix(caller.fn.Pkg.Pkg.Path(), "/pql") || caller.fn.Name() == "viewByTimeUnit"
 }
 
 func (ex *Exec) ifaceArgs(v Value) []Iface {
